@@ -145,6 +145,15 @@ impl Timer for SimTimer {
         };
         let fut = self.arm(TimerArg::Until(rec.clone()), delay.unwrap_or(0));
         let id = lock(&self.w).last_timer_id;
+        {
+            // a timer may just as well read the two components through the accessors
+            let (aw, am) = {
+                let _s = SutGuard::enter();
+                (t.checked_to_system_time(), t.checked_to_instant())
+            };
+            let accessors = TimeRec { wall: aw.map(conv::systime_to_ns), mono: am.map(conv::instant_to_offset) };
+            lock(&self.w).rec(Kind::TimerParts { id, destructure: rec.clone(), accessors });
+        }
         cmp(&self.w, "arm", t, rec.clone(), id);
         let w2 = self.w.clone();
         async move {
@@ -471,6 +480,8 @@ impl MetricsReporter for SimMetrics {
 pub struct SimAppSet {
     pub apps: Vec<App>,
     pub system_idx: usize,
+    /// where to note that the library takes the apps for writing (None in probe machines)
+    pub w: Option<Shared>,
 }
 
 impl AppSet for SimAppSet {
@@ -478,6 +489,10 @@ impl AppSet for SimAppSet {
         self.apps.clone()
     }
     fn iter_mut_apps(&mut self) -> Box<dyn Iterator<Item = &mut App> + '_> {
+        if let Some(w) = &self.w {
+            let _g = EnvGuard::enter();
+            lock(w).rec(Kind::AppSetWrite);
+        }
         Box::new(self.apps.iter_mut())
     }
     fn get_system_app_id(&self) -> &str {
